@@ -289,6 +289,9 @@ func checkAbortAttribution(c *Ctx, r *Run) {
 			key := c.FuncName(fn) + "|abort"
 			// classify the error source
 			src := resolveLoad(errArg)
+			if cc := sentinelInit(src); cc != nil {
+				src = cc // a package-level error variable: classified by the text it is initialised with
+			}
 			var verifyCall *ssa.Call
 			if dependsOn(src, func(v ssa.Value) bool {
 				cc, ok := v.(*ssa.Call)
@@ -672,7 +675,7 @@ func checkAbortProofIndices(c *Ctx, r *Run) {
 			continue
 		}
 		for _, g := range liftedGuards(fn, 0) {
-			if !strings.HasSuffix(g.decider, "abortNth.Verify") {
+			if !decHasSuffix(g.decider, "abortNth.Verify") {
 				continue
 			}
 			// find the two-level lookup label
@@ -696,4 +699,37 @@ func checkAbortProofIndices(c *Ctx, r *Run) {
 			}
 		}
 	}
+}
+
+// sentinelInit: v loads a package-level error variable that is assigned exactly once, in the package initialiser, from
+// errors.New / fmt.Errorf: returns that call.
+func sentinelInit(v ssa.Value) *ssa.Call {
+	u, ok := v.(*ssa.UnOp)
+	if !ok || u.Op != token.MUL {
+		return nil
+	}
+	g, ok := u.X.(*ssa.Global)
+	if !ok || g.Pkg == nil {
+		return nil
+	}
+	init := g.Pkg.Func("init")
+	if init == nil {
+		return nil
+	}
+	var found *ssa.Call
+	n := 0
+	allInstrs(init, func(in ssa.Instruction) {
+		st, ok := in.(*ssa.Store)
+		if !ok || st.Addr != ssa.Value(g) {
+			return
+		}
+		n++
+		if cc, ok := st.Val.(*ssa.Call); ok && (isCallToPkgFunc(cc, "errors", "New") || isCallToPkgFunc(cc, "fmt", "Errorf")) {
+			found = cc
+		}
+	})
+	if n != 1 {
+		return nil
+	}
+	return found
 }
